@@ -375,7 +375,8 @@ class Inliner:
 
     def instantiate(self, b, call, depth):
         off = self.ids.next() * 1000
-        body = copy.deepcopy(b["hir_raw"] if "hir_raw" in b else b["hir"])
+        # the helper's body after the expression-level rewrites every body gets first (integer `From`, explicit `?`, ...)
+        body = copy.deepcopy(b.get("hir_pre_norm") or (b["hir_raw"] if "hir_raw" in b else b["hir"]))
         params = copy.deepcopy(b["params"])
         tag = f"~{self.ids.next() % 100000}"
         taken = getattr(self, "names", set())
@@ -1559,6 +1560,7 @@ def normalise_crate(name, crate):
         h = unroll_const_loops(h, const_bodies, ids)
         h = specialise_range_arms(h, ids)
         b["hir_pre"] = h
+        b["hir_pre_norm"] = h
     for b in bodies:
         h = b.pop("hir_pre")
         if inl is not None:
@@ -1585,6 +1587,8 @@ def normalise_crate(name, crate):
         b["hir"] = h
         if ref is not None and b["path"] in ref and ref[b["path"]] is not None:
             rename_params(b, ref[b["path"]])
+    for b in bodies:
+        b.pop("hir_pre_norm", None)
     if inl is not None:
         helpers = sorted(p for p, v in inl._cand.items() if v is not None)
         # a helper all of whose calls were inlined is accounted for in its callers: its own body leaves the list the rules scan
